@@ -55,39 +55,29 @@ def rterm(x):
 # value kind of user-supplied scalars: Python number | NumPy fixed-width integer scalar  (machine arithmetic for the latter)
 # ---------------------------------------------------------------------------------------------------------------------
 
-INT_DTYPES = [("int8", 8, True), ("int16", 16, True), ("int32", 32, True), ("int64", 64, True),
-              ("uint8", 8, False), ("uint16", 16, False), ("uint32", 32, False), ("uint64", 64, False)]
-
-
 class ScalarDType:
-    """The (one) NumPy integer dtype of the NumPy scalars on a path: a symbolic index into INT_DTYPES.  Scalars of different
+    """The (one) NumPy integer dtype of the NumPy scalars / integer array on a path, kept fully symbolic: its range [lo, hi]
+    (signed: lo = -hi-1, unsigned: lo = 0; at least 8 bits) and its wrap-around W, an uninterpreted function constrained only
+    by what every fixed-width integer type guarantees:  W(t) lies in the range, and W(t) = t when t does (no overflow).
+    What W does on overflow is left open (sound over-approximation of two's-complement wrap-around).  Scalars of different
     integer dtypes in one expression (NumPy would promote) are not modelled."""
 
     def __init__(self, ctx):
-        self.idx = z3.Int(ctx.fresh_name("scalar_dtype"))
-        ctx.assume(z3.And(self.idx >= 0, self.idx < len(INT_DTYPES)))
-
-    def _table(self, f):
-        r = f(*INT_DTYPES[-1][1:])
-        for i in range(len(INT_DTYPES) - 2, -1, -1):
-            r = z3.If(self.idx == i, f(*INT_DTYPES[i][1:]), r)
-        return r
+        self._lo = z3.Real(ctx.fresh_name("scalar_dtype_min"))
+        self._hi = z3.Real(ctx.fresh_name("scalar_dtype_max"))
+        self.W = z3.Function(ctx.fresh_name("scalar_dtype_wrap"), z3.RealSort(), z3.RealSort())
+        ctx.assume(z3.And(self._hi >= 127, z3.Or(self._lo == 0, self._lo == -self._hi - 1)))
 
     def lo(self):
-        return self._table(lambda bits, signed: z3.RealVal(-(2 ** (bits - 1)) if signed else 0))
+        return self._lo
 
     def hi(self):
-        return self._table(lambda bits, signed: z3.RealVal(2 ** (bits - 1) - 1 if signed else 2 ** bits - 1))
+        return self._hi
 
-    def wrap(self, t):
-        """two's-complement wrap-around of the integer-valued real `t` into the dtype's range"""
-        i = z3.ToInt(t)
-
-        def f(bits, signed):
-            P = 2 ** bits
-            return z3.ToReal(((i + P // 2) % P) - P // 2) if signed else z3.ToReal(i % P)
-
-        return self._table(f)
+    def wrap(self, t, ctx):
+        r = self.W(t)
+        ctx.assume(z3.And(self._lo <= r, r <= self._hi, z3.Implies(z3.And(self._lo <= t, t <= self._hi), r == t)))
+        return r
 
 
 def scalar_dtype(ctx):
@@ -142,10 +132,10 @@ class NumVal(Kind):
         m = NumVal.machine(a, b)
         exact = f(a.val, b.val)
         if z3.is_false(m):
-            r = NumVal(exact, FALSE, z3.And(a.pyint, b.pyint))
-        else:
-            r = NumVal(z3.If(m, scalar_dtype(V.cur()).wrap(exact), exact), m, z3.And(z3.Not(m), a.pyint, b.pyint))
-        return r
+            return NumVal(exact, FALSE, z3.And(a.pyint, b.pyint))
+        ctx = V.cur()
+        # computed in the fixed-width integer dtype (wraps around) iff m; no path fork: the kind stays a symbolic flag
+        return NumVal(z3.If(m, scalar_dtype(ctx).wrap(exact, ctx), exact), m, z3.And(z3.Not(m), a.pyint, b.pyint))
 
     def __add__(self, o):
         return self._arith(o, lambda x, y: x + y)
@@ -210,7 +200,6 @@ def fresh_numval(ctx, name):
     pyint = ctx.fresh(name + "_is_python_int", "bool").t
     d = scalar_dtype(ctx)
     ctx.assume(z3.Not(z3.And(np_, pyint)))
-    ctx.assume(z3.Implies(z3.Or(np_, pyint), z3.IsInt(v)))
     ctx.assume(z3.Implies(np_, z3.And(d.lo() <= v, v <= d.hi())))
     return NumVal(v, np_, pyint)
 
@@ -285,7 +274,7 @@ def make_reduction_scalar(ghost, arr, term):
     if arr.dt == "i":
         ctx = V.cur()
         d = scalar_dtype(ctx)
-        ctx.assume(z3.Implies(ghost.has_finite, z3.And(d.lo() <= ghost.gmin, ghost.gmax <= d.hi(), z3.IsInt(ghost.gmin), z3.IsInt(ghost.gmax))))
+        ctx.assume(z3.Implies(ghost.has_finite, z3.And(d.lo() <= ghost.gmin, ghost.gmax <= d.hi())))
         return NumVal(term, z3.BoolVal(True), FALSE)
     return Sym(term)
 
